@@ -55,6 +55,8 @@ type srvEnv struct {
 	handlerStart map[int]bool   // request id -> handler entered
 	holdAccept   map[int]chan struct{}
 	acceptHeld   map[int]bool
+	holdClose    map[int]chan struct{} // client number -> released: the close callback of that connection is held
+	closeHeld    map[int]bool
 	blockHandler map[int]chan struct{} // request id -> released
 	holdTracer   map[int]chan struct{} // request id -> released
 	tracerHeld   map[int]bool
@@ -220,7 +222,7 @@ func runSrv(ts []string) string {
 	cfg := ts[1]
 	e := &srvEnv{
 		addrToClient: map[string]int{}, acceptCount: map[int]uint64{}, closeCalls: map[int][]bool{},
-		handlerStart: map[int]bool{}, holdAccept: map[int]chan struct{}{}, acceptHeld: map[int]bool{},
+		handlerStart: map[int]bool{}, holdAccept: map[int]chan struct{}{}, acceptHeld: map[int]bool{}, holdClose: map[int]chan struct{}{}, closeHeld: map[int]bool{},
 		blockHandler: map[int]chan struct{}{}, holdTracer: map[int]chan struct{}{}, tracerHeld: map[int]bool{},
 		reject: map[int]bool{},
 	}
@@ -263,13 +265,21 @@ func runSrv(ts []string) string {
 	}
 	if cfg[3] == '1' {
 		srv.OnCloseConnFunc = func(ctx context.Context, remoteAddr net.Addr, isServerShutdown bool) {
+			var hold chan struct{}
 			e.with(func() {
 				k, ok := e.addrToClient[remoteAddr.String()]
 				if !ok {
 					k = -1
 				}
 				e.closeCalls[k] = append(e.closeCalls[k], isServerShutdown)
+				hold = e.holdClose[k]
+				if hold != nil {
+					e.closeHeld[k] = true
+				}
 			})
+			if hold != nil {
+				<-hold
+			}
 		}
 	}
 	h := &srvHandler{e}
@@ -660,6 +670,41 @@ func runSrv(ts []string) string {
 					o = "nocb"
 				}
 			}
+		case "dh":
+			// client k disconnects and the close callback of its connection is held inside the callback
+			c := clients[k]
+			if c == nil {
+				o = "nc"
+				break
+			}
+			if cfg[3] != '1' {
+				_ = c.conn.Close()
+				wasTracked := tracked[k]
+				tracked[k] = false
+				o = "ok"
+				if wasTracked && !settle() {
+					o = "stuck"
+				}
+				break
+			}
+			e.with(func() { e.holdClose[k] = make(chan struct{}) })
+			_ = c.conn.Close()
+			tracked[k] = false
+			if waitUntil(func() bool { r := false; e.with(func() { r = e.closeHeld[k] }); return r }) {
+				o = "hc"
+			} else {
+				o = "to"
+			}
+		case "rc":
+			var ch chan struct{}
+			e.with(func() { ch = e.holdClose[k]; delete(e.holdClose, k) })
+			if ch != nil {
+				close(ch)
+			}
+			o = "ok"
+			if !settle() {
+				o = "stuck"
+			}
 		case "sh", "shx":
 			d := 5 * time.Second
 			if verb == "shx" {
@@ -862,6 +907,10 @@ func runSrv(ts []string) string {
 		for k, ch := range e.holdAccept {
 			close(ch)
 			delete(e.holdAccept, k)
+		}
+		for k, ch := range e.holdClose {
+			close(ch)
+			delete(e.holdClose, k)
 		}
 	})
 	if shutdownRet != nil && shutdownResult == "" {
